@@ -153,8 +153,12 @@ func Oracle(tr *udpx.Trace) (string, []*engine.Finding) {
 			id := assocID[op.C]
 			if len(st.Sent) <= 65000 {
 				wireTP[id] += tpWire
-				repTP[r.Key] += r.A
+			} else {
+				// a reply larger than the relay buffer may be read truncated: its reported payload size is
+				// not asserted (the datagram is not relayed anyway), but it stays in the sums on both sides
+				wireTP[id] += r.A
 			}
+			repTP[r.Key] += r.A
 			wirePC[id] += pc
 			repPC[r.Key] += r.B
 		default:
@@ -247,6 +251,9 @@ func scenario(in input) *engine.Scenario {
 func menu() []udpx.Op {
 	m := c03.Menu()
 	m = append(m, udpx.Op{K: "A", D: 20 * time.Second}, udpx.Op{K: "A", D: 6 * time.Minute})
+	// replies too large to be packed / relayed, and a datagram whose write to the target fails
+	m = append(m, udpx.Op{K: "R", C: 0, T: 1, N: 65480}, udpx.Op{K: "R", C: 0, T: 1, N: 65507},
+		udpx.Op{K: "S", C: 0, Key: 0, N: 9, Mod: "raw:93.184.216.34:0"})
 	return m
 }
 
